@@ -13,6 +13,7 @@ from __future__ import annotations
 
 import ast
 
+from pv.q import text as qtext
 from pv.model import AnalysisError, walk_no_nested, params, UNKNOWN
 
 UH = "passlib.utils.handlers"
@@ -108,7 +109,7 @@ def rule_a(model, rep):
         # 2. re-check inside the lock:  X = self.<guard>; if X is None: return
         recheck = False
         for st in inner[:4]:
-            if isinstance(st, ast.If) and any(isinstance(x, ast.Return) for x in st.body) and " is None" in ast.unparse(st.test):
+            if isinstance(st, ast.If) and any(isinstance(x, ast.Return) for x in st.body) and " is None" in qtext(st.test):
                 recheck = True
         rep.check(recheck, R, s, "if <pending> is None: return", "the pending state is re-checked after the lock is acquired",
                   witness="the thread that waited on the lock initialises the object a second time (kwds already consumed)")
@@ -117,7 +118,7 @@ def rule_a(model, rep):
         init_seen = class_seen = False
         bad = []
         for st in _linear(inner):
-            txt = ast.unparse(st) if not isinstance(st, (ast.With, ast.If)) else ""
+            txt = qtext(st) if not isinstance(st, (ast.With, ast.If)) else ""
             for g in guards:
                 if isinstance(st, ast.Assign) and ast.unparse(st.targets[0]) == f"self.{g}":
                     v = st.value
@@ -271,7 +272,7 @@ def rule_cd(model, rep):
                               "set_backend(); T2's _stub_requires_backend() sees __backend set and raises AssertionError")
     else:
         rep.hold(RC, site(UH, "BackendMixin._stub_requires_backend"), "does not raise on a backend set concurrently")
-    txt = ast.unparse(fn)
+    txt = qtext(fn)
     rep.check("cls.set_backend()" in txt, RC, site(UH, "BackendMixin._stub_requires_backend"), "cls.set_backend()", "stub loads the default backend")
     # stubs re-dispatch after loading
     fn = model.func(UH, "HasManyBackends._calc_checksum_backend")
@@ -308,7 +309,7 @@ def rule_cd(model, rep):
             rep.undecided(RC, site(UH, "BackendMixin.set_backend"), f"only {nst} class-state stores found, expected at least 4")
     # fast path reads outside the lock only to *return*
     first = next((st for st in sb.body if isinstance(st, ast.If)), None)
-    ok = first is not None and "cls.__backend" in ast.unparse(first.test) and all(isinstance(x, ast.Return) for x in first.body)
+    ok = first is not None and "cls.__backend" in qtext(first.test) and all(isinstance(x, ast.Return) for x in first.body)
     rep.check(ok, RC, site(UH, "BackendMixin.set_backend"), ast.unparse(first.test) if first else "<none>", "unlocked fast path only returns the active backend")
 
 
@@ -319,16 +320,16 @@ def rule_e(model, rep):
     # `if other is handler: return` precedes the KeyError
     idem = raise_ = None
     for i, st in enumerate(_linear(fn.body)):
-        t = ast.unparse(st) if not isinstance(st, (ast.If, ast.With)) else ast.unparse(st.test) if isinstance(st, ast.If) else ""
+        t = qtext(st) if not isinstance(st, (ast.If, ast.With)) else ast.unparse(st.test) if isinstance(st, ast.If) else ""
         if isinstance(st, ast.If) and t == "other is handler":
             idem = i
-        if isinstance(st, ast.Raise) and "KeyError" in t and raise_ is None:
+        if isinstance(st, ast.Raise) and t.loose("KeyError") and raise_ is None:
             raise_ = i
     rep.check(idem is not None and raise_ is not None and idem < raise_, R, site(REG, "register_crypt_handler"), "if other is handler: return",
               "registering the identical object twice is a no-op (two threads finishing the same lazy import)",
               witness="two threads importing the same handler: the second raises KeyError('another handler has already been registered')")
     fn = model.func(REG, "get_crypt_handler")
-    txt = ast.unparse(fn)
+    txt = qtext(fn)
     i_imp = txt.find("__import__(modname")
     i_re = txt.find("handler = _handlers.get(name)", i_imp)
     i_reg = txt.find("register_crypt_handler(handler, _attr=name)")
